@@ -12,6 +12,7 @@
 
 #include "../num_traits/from_rep.h"
 #include "../num_traits/to_rep.h"
+#include "../numbers/signedness.h"
 #include "definition.h"
 #include "rep_of.h"
 #include "tag_of.h"
@@ -155,7 +156,8 @@ namespace cnl {
             [[nodiscard]] constexpr auto exp2(
                     scaled_integer<Rep, power<Exponent>> const& x, Rep const& floored)
             {
-                return floored <= Exponent
+                // (a negative Exponent must not be converted to an unsigned Rep for this comparison)
+                return ((numbers::signedness_v<Rep> || Exponent >= 0) && floored <= Exponent)
                              ? rep_of_t<Intermediate>{1}  // return immediately if the shift would
                              // result in all bits being shifted out
                              // Do the shifts manually. Once the branch with shift operators is
